@@ -341,10 +341,9 @@ Qed.
 
 (** ** Part 3: the operations *)
 
-(** the messages' signers and recipients are not the module accounts (module accounts cannot sign,
-    and a transfer to the escrow account itself is a donation, outside the property) *)
+(** the signer of a create message is not a module account (module accounts cannot sign) *)
 Definition wf_op (o : op) : Prop :=
-  match o with Create m => m_sender m <> ESC /\ m_sender m <> BLK /\ m_to m <> ESC | _ => True end.
+  match o with Create m => m_sender m <> ESC /\ m_sender m <> BLK | _ => True end.
 
 Lemma with_asset_Some s d f s1 : with_asset s d f = Some s1 ->
   exists a p a', get d (st_assets s) = Some a /\ get_param (st_params s) d = Some p /\ f p a = Some a'
@@ -403,11 +402,13 @@ Definition new_contract (s : state) (m : create_msg) (dr : dir) : contract :=
 Lemma create_open_rel s m s' : Inv s -> wf_op (Create m) -> create s m = Some s' ->
   exists dr, open_rel s s' (id_of m) (new_contract s m dr).
 Proof.
-  intros I (Hs1 & Hs2 & Ht1). unfold create.
+  intros I (Hs1 & Hs2). unfold create.
   destruct (negb (create_basic m)) eqn:Hb; [discriminate|]. apply negb_false_iff in Hb.
   destruct (create_basic_facts m Hb) as [Hpos Hlock].
   destruct (blocked (m_to m)) eqn:Hbl; [discriminate|].
   assert (Ht2 : m_to m <> BLK) by (unfold blocked in Hbl; apply Z.eqb_neq; exact Hbl).
+  destruct (m_to m =? ESC) eqn:Hte; [discriminate|].
+  assert (Ht1 : m_to m <> ESC) by (apply Z.eqb_neq; exact Hte).
   cbv zeta. destruct (has (id_of m) (st_contracts s)) eqn:Hhas; [discriminate|].
   assert (Hfresh : get (id_of m) (st_contracts s) = None)
     by (unfold has in Hhas; destruct (get (id_of m) (st_contracts s)); [discriminate|reflexivity]).
@@ -1077,7 +1078,7 @@ Lemma duplicate_rejected_lemma s m : has (id_of m) (st_contracts s) = true -> st
 Proof.
   intros H. unfold step_ok. simpl. unfold create.
   destruct (negb (create_basic m)); [reflexivity|]. destruct (blocked (m_to m)); [reflexivity|].
-  cbv zeta. rewrite H. reflexivity.
+  destruct (m_to m =? ESC); [reflexivity|]. cbv zeta. rewrite H. reflexivity.
 Qed.
 
 (** the block whose height equals the expiration height refunds exactly the contracts still open *)
@@ -1274,6 +1275,7 @@ Proof. intros H. destruct (with_asset_Some _ _ _ _ H) as (? & ? & ? & _ & _ & _ 
 Lemma create_Acc s m s' : create s m = Some s' -> Acc s s'.
 Proof.
   unfold create. destruct (negb (create_basic m)); [discriminate|]. destruct (blocked (m_to m)); [discriminate|].
+  destruct (m_to m =? ESC); [discriminate|].
   cbv zeta. destruct (has (id_of m) (st_contracts s)); [discriminate|]. destruct (m_transfer m).
   - destruct (create_htlt s m) as [[s1 dr]|] eqn:Hh; [|discriminate]. intros H; inversion H; subst s'.
     apply (Acc_trans _ s1); [|apply Acc_same; reflexivity].
